@@ -34,7 +34,8 @@ ASSUMPTIONS = [
     'with one of them is counted (engine-dependent:*), not judged: casts other than int->float, year() (absent in SQLite), '
     'floor/ceil (SQLAlchemy registers a python floor on SQLite that raises on NULL), arithmetic over literals beyond 32 '
     'bit (overflow), ordering/limit inside a set operand and nested set operands (SQLite has no parenthesised compound '
-    'operands)',
+    'operands), FULL OUTER JOIN on SQLite (new in 3.39; 3.40 was observed to lose the NULL-extended rows when the other '
+    'side is an inner join with a constant-false term) - in all these cases the other engine still judges',
     'integer / and % are not generated (SQLite truncates, DuckDB does not); division only by a non-zero float literal; '
     'floats are dyadic so sums are exact; numbers are compared by value with 1e-9 relative rounding',
     'having without grouping over non-aggregated columns has no SQL denotation (both engines reject it): executed, not judged',
@@ -79,9 +80,10 @@ _PARSE_ATTRIBUTION = [
     ('ArgumentError', 'provider/feed/reader/alchemy.py:generate_join', 'not-eq'),
     ('AttributeError', 'provider/feed/reader/alchemy.py:generate_alias', 'not-eq'),
     ('TypeError:unsupported operand type', 'provider/feed/reader/alchemy.py:generate_expression', 'not-eq'),
+    ('AttributeError:\'bool\' object', 'provider/feed/reader/alchemy.py:<genexpr>', 'not-eq'),
     ('KeyError', 'io/dsl/parser.py:visit_element', 'mixed-table-ref'),
 ]
-_SQLITE_EXCUSES = {'cast', 'year', 'floor-ceil', 'big-arith', 'set-operand-order', 'set-operand-set'}
+_SQLITE_EXCUSES = {'cast', 'year', 'floor-ceil', 'big-arith', 'set-operand-order', 'set-operand-set', 'full-join'}
 _DUCKDB_EXCUSES = {'cast', 'big-arith', 'floor-ceil'}
 
 
